@@ -230,7 +230,15 @@ impl<
         &self,
         timestamp: Timestamp,
     ) -> Result<&shared::TzifLocalTimeType, &PosixTimeZone<ABBREV>> {
-        let timestamp = timestamp.as_second();
+        // Transitions are recorded in whole seconds, so the governing
+        // transition is determined by the *floor* of the timestamp. Since
+        // `as_second` truncates toward zero, a negative fractional second
+        // must be accounted for explicitly.
+        let timestamp = if timestamp.subsec_nanosecond() < 0 {
+            timestamp.as_second() - 1
+        } else {
+            timestamp.as_second()
+        };
         // This is guaranteed because we always push at least one transition.
         // This isn't guaranteed by TZif since it might have 0 transitions,
         // but we always add a "dummy" first transition with our minimum
